@@ -546,18 +546,26 @@ func isDigitRunSkipSafe(re *syntax.Regexp) bool {
 	case syntax.OpPlus, syntax.OpStar:
 		// + or * on a digit class: greedy unbounded → safe to skip
 		if len(re.Sub) == 1 && re.Sub[0].Op == syntax.OpCharClass {
-			return isDigitOnlyClass(re.Sub[0].Rune)
+			return isFullDigitClass(re.Sub[0].Rune)
 		}
 		return false
 	case syntax.OpRepeat:
 		// {N,} with no upper bound (Max == -1): greedy unbounded → safe
 		if re.Max == -1 && len(re.Sub) == 1 && re.Sub[0].Op == syntax.OpCharClass {
-			return isDigitOnlyClass(re.Sub[0].Rune)
+			return isFullDigitClass(re.Sub[0].Rune)
 		}
 		return false
 	default:
 		return false
 	}
+}
+
+// isFullDigitClass reports whether the class is exactly [0-9]. Only then does every
+// byte of a digit run belong to the class: with a subset such as [0-5] a match can
+// start inside a run whose first digit is outside the class ("65a" for [0-5]+a), so
+// the rest of the run must not be skipped after a failed attempt.
+func isFullDigitClass(runes []rune) bool {
+	return len(runes) == 2 && runes[0] == '0' && runes[1] == '9'
 }
 
 // isSafeForReverseSuffix checks if a pattern is safe for UseReverseSuffix strategy.
